@@ -169,7 +169,7 @@ public:
 
   void stackControl(const Controller * stmt, void * data)
   {
-    _controlstack.stack({stmt, data});
+    _controlstack.stack({stmt, data, execLevel()});
   }
 
   /**
@@ -404,6 +404,8 @@ private:
     const Controller * stmt;
     /* the opaque data held by the statement */
     void * data;
+    /* the level of block where the statement took control */
+    size_t level;
   };
 
   Stack<Control> _controlstack;
